@@ -134,7 +134,8 @@ class CollectionPipelineRule(BaseLintRule):  # thailint: ignore[srp,dry]
         for key in ("collection_pipeline", "collection-pipeline", "pipeline"):
             if isinstance(config_dict.get(key), dict):
                 return CollectionPipelineConfig.from_dict(config_dict[key])
-        return CollectionPipelineConfig.from_dict(config_dict)
+        # No section of its own: defaults (top-level keys are global settings, not this linter's)
+        return CollectionPipelineConfig()
 
     def _is_file_ignored(self, context: BaseLintContext, config: CollectionPipelineConfig) -> bool:
         """Check if file matches ignore patterns.
